@@ -10,6 +10,7 @@ import (
 	"strings"
 	"unicode/utf8"
 
+	"github.com/linuxboot/fiano/pkg/uefi"
 	"verif/harness/core"
 )
 
@@ -483,7 +484,9 @@ func (r *recipe) flags() wfFlags {
 				f.links = f.links && nf.links
 				f.fits = f.fits && nf.fits
 				f.uniq = f.uniq && nf.uniq
-			} else if bytes.HasPrefix(e.content(), nvarSig) {
+			} else if bytes.HasPrefix(e.content(), nvarSig) && takenForStore(r.Pol, e.content()) {
+				// a raw value that begins with the signature is fine as long as NewNVarStore refuses it
+				// (Lean: `notStore`, decided by the model's parser: the two verdicts are compared by M `wf`)
 				f.wf = false
 			}
 		}
@@ -740,4 +743,36 @@ func fixChecksums(rnd interface{ Intn(int) int }, r *recipe) {
 		}
 		e.Ext.Body[len(e.Ext.Body)-1] -= sum
 	}
+}
+
+// normalizeExtNested rewrites every store value that sits in an entry WITH an extended header into
+// the raw bytes of that store, at every level: fiano hands content + extended header to NewNVarStore,
+// so the grammar treats the value as plain bytes that begin with the signature (valueOk / notStore).
+func (r *recipe) normalizeExtNested() {
+	for i := range r.Entries {
+		e := &r.Entries[i]
+		if e.Nested == nil {
+			continue
+		}
+		e.Nested.normalizeExtNested()
+		if e.Ext != nil {
+			e.Value = e.Nested.ser()
+			e.Nested = nil
+		}
+	}
+}
+
+// takenForStore: does uefi.NewNVarStore accept the content under the erase polarity pol?  (a panic
+// counts as "taken": the recipe is then outside the well-formed grammar and only T2 looks at it)
+func takenForStore(pol byte, content []byte) (taken bool) {
+	saved := uefi.Attributes
+	defer func() {
+		uefi.Attributes = saved
+		if recover() != nil {
+			taken = true
+		}
+	}()
+	uefi.Attributes = uefi.ROMAttributes{ErasePolarity: pol}
+	_, err := uefi.NewNVarStore(append([]byte{}, content...))
+	return err == nil
 }
